@@ -167,7 +167,8 @@ Proof.
   pose proof (blen_namepart name Hnl) as Lnp. bnorm.
   set (namepart := if 0 <? blen name then name ++ zeros (N.to_nat (padded_name_w (blen name) - blen name)) else []) in *.
   rewrite <- !app_assoc.
-  match goal with |- parse_filters _ ?d _ _ _ = _ => remember d as D eqn:ED end.
+  unfold parse_filters.
+  match goal with |- parse_filters_gen _ _ ?d _ _ _ = _ => remember d as D eqn:ED end.
   assert (LD : blen D = off + 8 + pad8 (blen name) + 4 * blen cd + blen suf).
   { subst D. rewrite !blen_app, !blen_le, Lnp, blen_enc_cd. blia. }
   assert (R1 : rd_le D off 2 = Ok id).
@@ -184,7 +185,7 @@ Proof.
     apply (rd_le_at _ 2 2); auto.
     - rewrite !blen_app, !blen_le. blia.
     - change (256 ^ 2) with 65536. blia. }
-  cbn [parse_filters].
+  cbn [parse_filters_gen orb].
   replace (blen D <? off + 8) with false by (symmetry; apply N.ltb_ge; blia).
   rewrite R1. cbn [obind]. rewrite R2. cbn [obind]. rewrite R3. cbn [obind]. rewrite R4. cbn [obind].
   cbn [andb].
@@ -256,7 +257,7 @@ Theorem pipeline_roundtrip fs : wf_pipeline fs = true ->
   dec_pipeline (enc_pipeline fs) = Ok (proj_pipeline fs).
 Proof.
   intros Hwf. destruct (wf_pipeline_inv fs Hwf) as [Hlen Hfs].
-  unfold dec_pipeline, enc_pipeline, proj_pipeline.
+  unfold dec_pipeline, dec_pipeline_gen, enc_pipeline, proj_pipeline.
   assert (W : wrap8 (N.of_nat (length fs)) = N.of_nat (length fs)) by (unfold wrap8; apply N.mod_small; lia).
   rewrite W. set (n := N.of_nat (length fs)) in *.
   set (C := concat (map enc_filter fs)).
@@ -276,6 +277,7 @@ Proof.
   cbv iota. cbn [andb].
   subst n. rewrite Nat2N.id.
   rewrite (app_assoc [2; N.of_nat (length fs)]). rewrite <- (app_nil_r C). subst C.
+  change (parse_filters_gen pipeline_v2_names) with parse_filters.
   rewrite parse_filters_encoded by (auto; reflexivity).
   reflexivity.
 Qed.
